@@ -245,6 +245,7 @@ func runC06(c *Ctx) error {
 		k := 2 + c.Intn(7)
 		lastH := -1
 		var toks []string
+		var flags string // what IsNew said before each Set (compared with the Lean model of the handler)
 		// the handler's reference position must be the last accepted voteproof's position, as LastPoint has it
 		var ref isaac.LastPoint
 		refSet, detour := false, false
@@ -270,6 +271,7 @@ func runC06(c *Ctx) error {
 			toks = append(toks, p.tok())
 			vp := p.voteproof()
 			wasNew := h.IsNew(vp)
+			flags += b01(wasNew)
 			expectNew := !refSet || isaac.IsNewVoteproof(ref, vp)
 			if wasNew != expectNew {
 				cls := "C06:handler-reference-is-not-the-last-accepted"
@@ -299,6 +301,14 @@ func runC06(c *Ctx) error {
 			if wasNew && !set {
 				c.Violation("C06:lastvoteproofs-new-not-set", strings.Join(toks, " "), map[string]interface{}{"seq": toks})
 			}
+		}
+		if i%10 == 0 { // every tenth sequence also goes to the Lean model of the handler (Model/LastVoteproofs.lean)
+			capTok := "z"
+			if cap := h.Last().Cap(); cap != nil {
+				capTok = fmt.Sprintf("%d,%d,%s,%s,%s", cap.Point().Height(), cap.Point().Round(), b01(cap.Point().Stage() == base.StageACCEPT),
+					b01(cap.Result() == base.VoteResultMajority), b01(isaac.IsSuffrageConfirmBallotFact(cap.Majority())))
+			}
+			c.Case("lvh "+strings.Join(toks, " "), flags+" cap="+capTok)
 		}
 	}
 	return nil
